@@ -125,6 +125,29 @@ def run_(tier):
         if o.get("skipped"):
             raise vlib.Infra("concurrent case skipped: %s" % o["skipped"])
     races = race_reports(logdir)
+    # (S) resting calls: call A's listener stops listening after k events, for every k; while A rests in that dispatch,
+    # call B is made from another goroutine and must return what it returns alone (documents below and above 1 MiB)
+    pad = " " * (1200 * 1024)
+    small = c09.DOCS["fail3"]
+    big = small.rstrip()[:-1] + pad + small.rstrip()[-1]
+    scases = [{"id": "stall-%s-%s" % (a, b), "profile": corpus.OK_PROFILE, "docA": {"small": small, "big": big}[a],
+               "docB": {"small": small, "big": big}[b]}
+              for a, b in ([("big", "big"), ("small", "big")] if tier == "quick" else
+                           [("big", "big"), ("small", "big"), ("big", "small"), ("small", "small")])]
+    sobs = vlib.run_harness("stall", scases, "c10_stall", shards=len(scases), timeout=1200)
+    npoints = 0
+    for o in sobs:
+        if o.get("skipped"):
+            raise vlib.Infra("stall case skipped: %s" % o["skipped"])
+        for pt in o["points"]:
+            npoints += 1
+            if not pt["bDone"]:
+                V.disagree("a call does not return while another call rests in an event dispatch", {"case": o["id"], "point": pt})
+            elif not pt["bSame"]:
+                V.disagree("a call returns a different result while another call rests in an event dispatch", {"case": o["id"], "point": pt})
+            elif not pt["aDone"] or not pt["aSame"]:
+                V.disagree("a call that rested in an event dispatch while another call ran returns a different result than alone",
+                           {"case": o["id"], "point": pt})
     for key, txt in races:
         V.disagree(key, {"race_report": txt})
     # the text of an error about the DATA (the profile compiles) is part of what a call returns
@@ -154,7 +177,9 @@ def run_(tier):
                 "alternating report configurations, executed by a -race build with 4 or 16 goroutines released together, %d rounds; every "
                 "call's report hash must equal its solo value (bound in the trace spec), handles compiled under concurrency "
                 "are probed on 3 documents, the counter values seen by hook H3 must be a run of the atomic Genvar action; "
-                "any Go race-detector report is a violation; distinct = distinct schedules" % rounds,
+                "any Go race-detector report is a violation; plus %d resting points: call A rests in the dispatch of its k-th "
+                "event (listener stopped, every k, documents of 0.3 KiB and 1.2 MiB) while call B runs to completion and "
+                "both must return their solo values; distinct = distinct schedules" % (rounds, npoints),
         "race_reports": len(races),
         "samples": [{"goroutines": c["goroutines"][:4], "threads": len(c["goroutines"]), "rounds": c["rounds"]} for c in cases[:2]],
         "checker_cmd": tr.cmd, "negative_control": "SplitGenvar -> %s" % neg.violated,
